@@ -256,3 +256,81 @@ def _comb(n: int, k: int) -> int:
     with exit_():
         unfold(binom(old(n), old(k)))
         unfold(binom(old(n), 0))
+
+
+@lemma
+def lemma_table_bound(n: int, k: int):
+    """every entry of the 100 x 12 table is < 2^53 (C(n,k) <= C(99,k), evaluated by Pascal's rule)"""
+    requires(0 <= n, n < 100, 0 <= k, k < 12)
+    ensures(binom(n, k) < 2 ** 53)
+    lemma_binom_mono_n(n, 99, k)
+    compute(binom(99, 0), binom(99, 1), binom(99, 2), binom(99, 3), binom(99, 4), binom(99, 5))
+    compute(binom(99, 6), binom(99, 7), binom(99, 8), binom(99, 9), binom(99, 10), binom(99, 11))
+
+
+@contract("mchap.jitutils.__init___COMB_CACHE", props=["C11"])
+def init_comb_cache() -> A[i8, 2]:
+    ensures(result.shape == (100, 12))
+    ensures(forall(0, 100, lambda a: forall(0, 12, lambda b: result[a, b] == binom(a, b))))
+    with loop(0):
+        invariant(forall(0, n, lambda a: forall(0, 12, lambda b: _COMB_CACHE[a, b] == binom(a, b))))
+    with loop(1):
+        invariant(forall(0, n, lambda a: forall(0, 12, lambda b: _COMB_CACHE[a, b] == binom(a, b))))
+        invariant(forall(0, k, lambda b: _COMB_CACHE[n, b] == binom(n, b)))
+        with head():
+            lemma_table_bound(n, k)
+
+
+@contract("mchap.jitutils.comb", machine_ints=True, props=["C11"])
+def comb(n: int, k: int) -> int:
+    requires(n >= 0, k >= 0)  # the table path indexes with n, k: negative values would wrap
+    requires(binom(n, k) < 2 ** 53, n < 2 ** 62)
+    ensures(result == binom(n, k))
+
+
+@spec
+def cwr(n: int, k: int) -> int:
+    """multiset coefficient C(n+k-1, k); the code's documented quirk cwr(0,0) = 0 is part of the spec"""
+    if n == 0 and k == 0:
+        return 0
+    return binom(n + k - 1, k)
+
+
+@contract("mchap.jitutils._comb_with_replacement", machine_ints=True, props=["C11"])
+def _comb_with_replacement(n: int, k: int) -> int:
+    requires(k >= 0, cwr(n, k) < 2 ** 53, n < 2 ** 61, k < 2 ** 61)
+    raises(n < 0)
+    ensures(result == cwr(old(n), k))
+    with entry():
+        unfold(cwr(n, k))
+
+
+@lemma
+def lemma_cwr_table_bound(n: int, k: int):
+    requires(0 <= n, n < 100, 0 <= k, k < 12)
+    ensures(cwr(n, k) < 2 ** 53)
+    unfold(cwr(n, k))
+    if n + k >= 1:
+        lemma_binom_mono_n(n + k - 1, 109, k)
+        compute(binom(109, 0), binom(109, 1), binom(109, 2), binom(109, 3), binom(109, 4), binom(109, 5))
+        compute(binom(109, 6), binom(109, 7), binom(109, 8), binom(109, 9), binom(109, 10), binom(109, 11))
+
+
+@contract("mchap.jitutils.__init___COMB_WITH_REPLACEMENT_CACHE", props=["C11"])
+def init_cwr_cache() -> A[i8, 2]:
+    ensures(result.shape == (100, 12))
+    ensures(forall(0, 100, lambda a: forall(0, 12, lambda b: result[a, b] == cwr(a, b))))
+    with loop(0):
+        invariant(forall(0, n, lambda a: forall(0, 12, lambda b: _COMB_WITH_REPLACEMENT_CACHE[a, b] == cwr(a, b))))
+    with loop(1):
+        invariant(forall(0, n, lambda a: forall(0, 12, lambda b: _COMB_WITH_REPLACEMENT_CACHE[a, b] == cwr(a, b))))
+        invariant(forall(0, k, lambda b: _COMB_WITH_REPLACEMENT_CACHE[n, b] == cwr(n, b)))
+        with head():
+            lemma_cwr_table_bound(n, k)
+
+
+@contract("mchap.jitutils.comb_with_replacement", machine_ints=True, props=["C11"])
+def comb_with_replacement(n: int, k: int) -> int:
+    requires(n >= 0, k >= 0)
+    requires(cwr(n, k) < 2 ** 53, n < 2 ** 61, k < 2 ** 61)
+    ensures(result == cwr(n, k))
